@@ -16,9 +16,9 @@ import (
 
 func init() {
 	register(&Check{ID: "C13", Run: runC13, Expl: oblig.Explanation{
-		Text: "Static partition-balancer check. (R1/R2) for each of the 7 built-in balancers the set of expressions it can return is extracted from SSA (locals looked through) and compared with the reference operator chain: RoundRobin partitions[(counter/ChunkSize) % len]; Hash int32(sum) % int32(n) then negate-if-negative (Sarama hash partitioner); ReferenceHash (int32(sum) & 0x7fffffff) % int32(n); CRC32 partitions[ChecksumIEEE(key) % uint32(n)] (librdkafka consistent); Murmur2 partitions[(murmur2(key) & 0x7fffffff) % uint32(n)] (Java default); random partitions[rand.Int() % n]; LeastBytes returns the partition stored in the selected counter. Each chain ends in an index/remainder by the number of offered partitions, so the result is an offered partition (Hash/ReferenceHash return the index itself, which equals the partition for the contiguous 0..n-1 list the Writer supplies, R7). (R3) fallback guards: Hash/ReferenceHash iff Key == nil; CRC32 iff len(Key) == 0 ∧ ¬Consistent; Murmur2 iff Key == nil ∧ ¬Consistent. (R4) RoundRobin reads and increments its counter in one critical section; a user-supplied Hasher is used under the balancer's lock. (R5) LeastBytes picks the first minimum with a strict < and adds len(Key)+len(Value); its counters hold the offered partitions. (R6) murmur2 contains the seed, multiplier and shifts of the reference implementation; the default hasher is FNV-1a 32. (R7) loadCachedPartitions returns a prefix of a slice whose element i is i, reusing the cache only when it is long enough. Not decided: equality with Sarama/librdkafka/Java for every key (numerical), murmur2's tail handling, exactness of counters beyond mutual exclusion.",
-		Rule: "one obligation per balancer return-shape set, guard, and structural fact",
-		Trusted: []string{"go/ssa", "expression shapes (internal/an/shape.go)", "reference operator chains of the three foreign partitioners (hand-written)"},
+		Text:        "Static partition-balancer check. (R1/R2) for each of the 7 built-in balancers the set of expressions it can return is extracted from SSA (locals looked through) and compared with the reference operator chain: RoundRobin partitions[(counter/ChunkSize) % len]; Hash int32(sum) % int32(n) then negate-if-negative (Sarama hash partitioner); ReferenceHash (int32(sum) & 0x7fffffff) % int32(n); CRC32 partitions[ChecksumIEEE(key) % uint32(n)] (librdkafka consistent); Murmur2 partitions[(murmur2(key) & 0x7fffffff) % uint32(n)] (Java default); random partitions[rand.Int() % n]; LeastBytes returns the partition stored in the selected counter. Each chain ends in an index/remainder by the number of offered partitions, so the result is an offered partition (Hash/ReferenceHash return the index itself, which equals the partition for the contiguous 0..n-1 list the Writer supplies, R7). (R3) fallback guards: Hash/ReferenceHash iff Key == nil; CRC32 iff len(Key) == 0 ∧ ¬Consistent; Murmur2 iff Key == nil ∧ ¬Consistent. (R4) RoundRobin reads and increments its counter in one critical section; a user-supplied Hasher is used under the balancer's lock. (R5) LeastBytes picks the first minimum with a strict < and adds len(Key)+len(Value); its counters hold the offered partitions. (R6) murmur2 contains the seed, multiplier and shifts of the reference implementation; the default hasher is FNV-1a 32. (R7) loadCachedPartitions returns a prefix of a slice whose element i is i, reusing the cache only when it is long enough. Not decided: equality with Sarama/librdkafka/Java for every key (numerical), murmur2's tail handling, exactness of counters beyond mutual exclusion.",
+		Rule:        "one obligation per balancer return-shape set, guard, and structural fact",
+		Trusted:     []string{"go/ssa", "expression shapes (internal/an/shape.go)", "reference operator chains of the three foreign partitioners (hand-written)"},
 		Assumptions: []string{"the Writer offers partitions 0..n-1 (R7), which makes index and partition coincide for Hash and ReferenceHash"},
 	}})
 }
@@ -100,7 +100,7 @@ func c13Shapes(p *load.Program, r *oblig.Report) {
 	hb := p.Func("", "(*Hash).Balance")
 	if hb != nil {
 		ok := false
-		for _, b := range hb.Blocks {
+		for _, b := range an.Blocks(hb) {
 			_, ci := an.IfCond(b)
 			if ci == nil || ci.Op != token.LSS {
 				continue
@@ -156,7 +156,7 @@ func c13Shapes(p *load.Program, r *oblig.Report) {
 	r.Check(okRet && okFill, rule, "kafka.(*LeastBytes).Balance returns the partition recorded in the chosen counter", p.Pos(lb.Pos()), "return lb.counters[minIndex].partition with counters[i].partition = partitions[i]", fmt.Sprintf("returnsCounterPartition=%v countersHoldOfferedPartitions=%v", okRet, okFill))
 	// counters are rebuilt when the number of partitions changes
 	okRebuild := false
-	for _, b := range lb.Blocks {
+	for _, b := range an.Blocks(lb) {
 		_, ci := an.IfCond(b)
 		if ci != nil && ci.Op == token.NEQ && strings.Contains(an.Shape(ci.X), "len(partitions)") && strings.Contains(an.Shape(ci.Y), "len(lb.counters)") {
 			okRebuild = true
@@ -189,7 +189,7 @@ func guardOf(call ssa.Instruction) string {
 				onTrue = !onTrue
 			}
 		} else {
-			c := iff.Cond
+			c := an.CondOf(iff)
 			if u, isU := c.(*ssa.UnOp); isU && u.Op == token.NOT {
 				c = u.X
 				onTrue = !onTrue
@@ -200,6 +200,14 @@ func guardOf(call ssa.Instruction) string {
 			s = "¬(" + s + ")"
 		}
 		conds = append(conds, s)
+	}
+	// inside a helper that did not exist at review time: also the conditions of its (single) call site
+	if ins, ok := call.(ssa.Instruction); ok && an.IsNew(ins.Parent()) {
+		if sites := an.SitesOf(ins.Parent()); len(sites) == 1 {
+			if outer := guardOf(sites[0].(ssa.Instruction)); outer != "" {
+				conds = append(conds, strings.Split(outer, " ∧ ")...)
+			}
+		}
 	}
 	sort.Strings(conds)
 	return strings.Join(conds, " ∧ ")
@@ -245,7 +253,7 @@ func c13Guards(p *load.Program, r *oblig.Report) {
 		var fb []ssa.CallInstruction
 		for _, c := range callsTo(fn, func(cc *ssa.CallCommon) bool {
 			f := cc.StaticCallee()
-			return f != nil && f.Name() == "Balance" && f.Signature.Recv() != nil && (an.NamedIs(f.Signature.Recv().Type(), load.ModPath, "RoundRobin") || an.NamedIs(f.Signature.Recv().Type(), load.ModPath, "randomBalancer"))
+			return f != nil && an.RefFuncName(f) == "Balance" && f.Signature.Recv() != nil && (an.NamedIs(f.Signature.Recv().Type(), load.ModPath, "RoundRobin") || an.NamedIs(f.Signature.Recv().Type(), load.ModPath, "randomBalancer"))
 		}) {
 			fb = append(fb, c)
 		}
@@ -307,7 +315,7 @@ func c13Counters(p *load.Program, r *oblig.Report) {
 			continue
 		}
 		ok := false
-		for _, b := range fn.Blocks {
+		for _, b := range an.Blocks(fn) {
 			_, ci := an.IfCond(b)
 			if ci == nil || ci.Op != token.NEQ || !an.IsNilConst(ci.Y) || !strings.HasSuffix(argDesc(ci.X), ".Hasher") {
 				continue
@@ -317,7 +325,7 @@ func c13Counters(p *load.Program, r *oblig.Report) {
 				if isMutexOp(ins, "lock", false) {
 					locks = true
 				}
-				if d, isD := ins.(*ssa.Defer); isD && d.Call.StaticCallee() != nil && d.Call.StaticCallee().Name() == "Unlock" {
+				if d, isD := ins.(*ssa.Defer); isD && d.Call.StaticCallee() != nil && an.RefFuncName(d.Call.StaticCallee()) == "Unlock" {
 					unlockDeferred = true
 				}
 			}
@@ -332,7 +340,7 @@ func c13Counters(p *load.Program, r *oblig.Report) {
 		return
 	}
 	strict := false
-	for _, b := range lb.Blocks {
+	for _, b := range an.Blocks(lb) {
 		_, ci := an.IfCond(b)
 		if ci != nil && (ci.Op == token.LSS || ci.Op == token.LEQ) && strings.HasSuffix(an.Shape(ci.X), ".bytes") {
 			strict = true
@@ -406,7 +414,7 @@ func c13Cache(p *load.Program, r *oblig.Report) {
 	r.Check(okPrefix, rule, "loadCachedPartitions returns the first numPartitions elements", p.Pos(fn.Pos()), "partitions[:numPartitions] on both paths", strings.Join(shapes, " ;; "))
 	// cache hit only when long enough (len, not cap)
 	okHit := false
-	for _, b := range fn.Blocks {
+	for _, b := range an.Blocks(fn) {
 		_, ci := an.IfCond(b)
 		if ci != nil && ci.Op == token.GEQ && strings.HasPrefix(an.Shape(ci.X), "len(") && an.Shape(ci.Y) == "numPartitions" {
 			okHit = true
